@@ -122,14 +122,15 @@ def omitPEnd : List HTok → Bool
   | .startTag n _ :: _ => has (tagTraits n) C03Tables.omitPTag
   | _ :: _ => false
 
-/-- `</optgroup>` look-ahead: skip every text token; omit unless an `option` tag follows -/
+/-- `</optgroup>` look-ahead: skip every text token and comment; omit at the end of the input, before an end tag
+    other than `</option>`, or before another `<optgroup>` -/
 def omitOptgroupEnd : List HTok → Bool
   | [] => true
   | .text _ _ :: r => omitOptgroupEnd r
   | .comment _ _ :: r => omitOptgroupEnd r
   | .endTag n _ :: _ => !hashIs n "option"
-  | .startTag n _ :: _ => !hashIs n "option"
-  | _ :: _ => true
+  | .startTag n _ :: _ => hashIs n "optgroup"
+  | _ :: _ => false
 
 def alwaysOmitEnd : List String :=
   ["thead", "tbody", "tfoot", "tr", "th", "td", "option", "dd", "dt", "li", "rb", "rt", "rtc", "rp"]
@@ -497,7 +498,8 @@ def step (o : Opts) (ext : Ext) (sub : Sub) (st : St) (t : HTok) (rest : List HT
   | .doctype => .ok (st0, s "<!doctype html>")
   | .comment data text => do
     let out ← commentOut o ext data text
-    .ok ({ st0 with afterPre := if 0 < st.afterPre && !o.keepComments then 2 else 0 }, out)
+    -- only a comment that really disappears can put the newline of the text right behind `<pre>`
+    .ok ({ st0 with afterPre := if 0 < st.afterPre && out.isEmpty then 2 else 0 }, out)
   | .svg data => .ok ({ st0 with omitSpace := false }, callSub sub (s "image/svg+xml") true data)
   | .math data => .ok ({ st0 with omitSpace := false }, callSub sub (s "application/mathml+xml") false data)
   | .template data => .ok ({ st0 with omitSpace := false }, data)
